@@ -24,7 +24,17 @@ func mkType(signed bool, bits int) ityp {
 	return ityp{name: fmt.Sprintf("%s%d", n, bits), bits: bits, signed: signed}
 }
 
-var genWidths = []int{8, 16, 32, 64, 7, 13, 24, 33}
+// genWidths are the operand widths of the generated programs.  The second
+// half are widths for which compiler/circuits/circ_multiplier_params.go has a
+// tuned Karatsuba/array multiplier threshold (16-21, 37-41, 71-81, ...); the
+// first half falls back to the generic default.
+var genWidths = []int{8, 32, 64, 7, 13, 24, 33, 16, 17, 20, 21, 37, 40, 41, 18}
+
+// tunedMultWidth mirrors the key set of circuits.multiplierArrayTresholds for
+// the widths used here (classes only: the oracle does not depend on it).
+func tunedMultWidth(bits int) bool {
+	return (bits >= 16 && bits <= 21) || (bits >= 37 && bits <= 41) || (bits >= 71 && bits <= 81)
+}
 
 func drawType(t *rapid.T, label string) ityp {
 	signed := rapid.IntRange(0, 3).Draw(t, label+"-signed") == 0
@@ -60,6 +70,18 @@ type pgen struct {
 	ncalls int      // calls emitted by leaf (bounded: callees are inlined)
 	mults  int
 	sb     strings.Builder
+}
+
+// maxMults bounds the multiplications of one function (a 64-bit multiplier
+// has 23000 gates, a 16-bit one 1900).
+func (g *pgen) maxMults() int {
+	switch {
+	case g.ty.bits >= 64:
+		return 1
+	case g.ty.bits > 32:
+		return 2
+	}
+	return 3
 }
 
 func (g *pgen) lit() string {
@@ -130,9 +152,10 @@ func (g *pgen) expr(depth int) string {
 	}
 	op := rapid.SampledFrom(binOps).Draw(g.t, "op")
 	if op == "*" {
-		g.mults++
-		if g.mults > 3 {
+		if g.mults >= g.maxMults() {
 			op = "+"
+		} else {
+			g.mults++
 		}
 	}
 	l := g.expr(depth - 1)
@@ -259,10 +282,16 @@ func writeConsts(sb *strings.Builder, t *rapid.T, consts []cdef) {
 
 // drawSingleProgram draws a single-file program: several untyped and typed
 // constants of different widths, a two-party main over one integer type with
-// assignments, if/else, loops and many distinct literals.
-func drawSingleProgram(t *rapid.T) (string, []string) {
+// assignments, if/else, loops and many distinct literals.  With forceMult the
+// first statement multiplies the two inputs (else its operator is drawn).
+func drawSingleProgram(t *rapid.T, forceMult bool) (string, []string) {
 	ty := drawType(t, "T")
-	nconst := rapid.IntRange(3, 12).Draw(t, "nconst")
+	maxConst, maxStmt := 12, 7
+	if forceMult {
+		// A program for the history: small.
+		maxConst, maxStmt = 5, 3
+	}
+	nconst := rapid.IntRange(3, maxConst).Draw(t, "nconst")
 	consts := drawConsts(t, ty, "C", nconst)
 	tags := map[string]bool{}
 
@@ -273,9 +302,16 @@ func drawSingleProgram(t *rapid.T) (string, []string) {
 
 	g := &pgen{t: t, ty: ty, reads: []string{"a", "b"}, consts: consts}
 	g.line(0, "func main(a %s, b %s) %s {", ty.name, ty.name, ty.name)
-	g.line(1, "v0 := (a %s b)", rapid.SampledFrom([]string{"+", "^", "-", "&"}).Draw(t, "op0"))
+	op0 := rapid.SampledFrom([]string{"*", "+", "^", "-", "&", "*"}).Draw(t, "op0")
+	if forceMult {
+		op0 = "*"
+	}
+	if op0 == "*" {
+		g.mults++
+	}
+	g.line(1, "v0 := (a %s b)", op0)
 	g.vars = append(g.vars, "v0")
-	g.stmts(rapid.IntRange(2, 7).Draw(t, "nstmt"), 1, tags)
+	g.stmts(rapid.IntRange(2, maxStmt).Draw(t, "nstmt"), 1, tags)
 	g.line(1, "return %s", g.expr(2))
 	g.line(0, "}")
 	sb.WriteString(g.sb.String())
@@ -284,7 +320,15 @@ func drawSingleProgram(t *rapid.T) (string, []string) {
 	if ty.bits > 32 {
 		res = append(res, "T>32bits")
 	}
-	for _, k := range []string{"has-if", "has-loop"} {
+	if tunedMultWidth(ty.bits) {
+		res = append(res, "T-width=tuned-mult-threshold")
+	} else {
+		res = append(res, "T-width=default-mult-threshold")
+	}
+	if g.mults > 0 {
+		tags["has-mult"] = true
+	}
+	for _, k := range []string{"has-if", "has-loop", "has-mult"} {
 		if tags[k] {
 			res = append(res, k)
 		}
@@ -298,67 +342,161 @@ func drawSingleProgram(t *rapid.T) (string, []string) {
 var pkgNames = []string{"pa", "pb", "pc", "pd", "pe", "alpha", "zeta", "m1", "kilo", "q"}
 
 type gpkg struct {
-	name    string   // package name = last component of the import path
+	name    string   // package name (the package clause of its files)
 	path    string   // import path (directory below the package root)
+	alias   bool     // importers must name the package explicitly
 	imports []int    // indices of lower packages
 	fn      string   // exported function name
 	vars    []string // package-level scalar variables
 }
 
-// drawMultiProgram writes 2-5 library packages (constants, a type,
+// importLine is the import declaration of p inside an import ( ... ) block.
+// The compiler keys its package table by the local name and requires the
+// package clause of the imported files to be equal to it (Parser.Parse:
+// "found packages X and Y"); the directory is free.  So an explicit name is
+// needed exactly when the last path component is not the package name
+// ("codec \"acme/codec/v2\""), and is allowed (when equal) otherwise.
+func importLine(t *rapid.T, p *gpkg) string {
+	if p.alias || rapid.IntRange(0, 3).Draw(t, "explicit-alias") == 0 {
+		return fmt.Sprintf("\t%s %q\n", p.name, p.path)
+	}
+	return fmt.Sprintf("\t%q\n", p.path)
+}
+
+func lastComponent(p string) string {
+	if i := strings.LastIndex(p, "/"); i >= 0 {
+		return p[i+1:]
+	}
+	return p
+}
+
+// sharedBase tells whether two of the packages l have import paths that end
+// in the same component.
+func sharedBase(pkgs []gpkg, l []int) bool {
+	for i, a := range l {
+		for _, b := range l[:i] {
+			if lastComponent(pkgs[a].path) == lastComponent(pkgs[b].path) {
+				return true
+			}
+		}
+	}
+	return false
+}
+
+var (
+	pkgOrgs     = []string{"acme", "acme", "lib/x", "org"}
+	pkgVersions = []string{"v2", "v2", "v3"}
+)
+
+// multiPkgs is a drawn set of library packages.
+type multiPkgs struct {
+	ty     ityp
+	pkgs   []gpkg
+	files  []File
+	tags   map[string]bool
+	twinA  int
+	twinB  int
+	nmains int
+}
+
+// dropTwin removes the second twin from an import list that has both.
+func (m *multiPkgs) dropTwin(l []int) []int {
+	hasA := false
+	for _, j := range l {
+		hasA = hasA || j == m.twinA
+	}
+	if !hasA || m.twinA < 0 {
+		return l
+	}
+	var res []int
+	for _, j := range l {
+		if j != m.twinB {
+			res = append(res, j)
+		}
+	}
+	return res
+}
+
+func (m *multiPkgs) tagList() []string {
+	var res []string
+	for k := range m.tags {
+		res = append(res, k)
+	}
+	sortStrings(res)
+	return res
+}
+
+// drawMultiPackages writes 2-5 library packages (constants, a type,
 // package-level variables - some with initialisers that are not folded to a
-// constant -, a function; some packages import earlier ones) and a main that
-// imports a drawn subset in a drawn order.
-func drawMultiProgram(t *rapid.T) (string, []File, []string) {
-	ty := mkType(rapid.IntRange(0, 5).Draw(t, "signed") == 0,
-		rapid.SampledFrom([]int{8, 16, 16, 32, 64, 13}).Draw(t, "bits"))
+// constant -, a function; some packages import earlier ones).  Directory
+// layouts: flat ("pa"), below an organisation directory ("acme/pa"), Go style
+// major version directories ("pa/v2", "acme/pa/v3": the last path component
+// is not the package name and is shared by several packages), and two
+// same-named packages in different directories ("da/pa", "db/pa").
+func drawMultiPackages(t *rapid.T) *multiPkgs {
+	m := &multiPkgs{tags: map[string]bool{}, twinA: -1, twinB: -1}
+	m.ty = mkType(rapid.IntRange(0, 5).Draw(t, "signed") == 0,
+		rapid.SampledFrom([]int{8, 16, 20, 32, 64, 13, 16, 40}).Draw(t, "bits"))
+	ty := m.ty
 	npk := rapid.IntRange(2, 5).Draw(t, "npkg")
 	names := rapid.Permutation(pkgNames).Draw(t, "names")[:npk]
 	collide := rapid.Bool().Draw(t, "collide") // same variable names in all packages
-	tags := map[string]bool{}
+	tags := m.tags
 	if collide {
 		tags["same-var-names"] = true
 	}
 
 	// Same-named packages: one time in four two packages share their name
-	// (the last component of the import path) and live in different
-	// directories; no importer sees both.
-	twinA, twinB := -1, -1
+	// and live in different directories; no importer sees both (the package
+	// table of a compilation is keyed by the local name).
 	if npk >= 3 && rapid.IntRange(0, 3).Draw(t, "twins") == 0 {
 		ab := rapid.Permutation(seq(npk)).Draw(t, "twinpair")[:2]
 		sortInts(ab)
-		twinA, twinB = ab[0], ab[1]
-		names[twinB] = names[twinA]
+		m.twinA, m.twinB = ab[0], ab[1]
+		names[m.twinB] = names[m.twinA]
 		tags["same-named-pkgs"] = true
 	}
-	// dropTwin removes the second twin from an import list that has both.
-	dropTwin := func(l []int) []int {
-		hasA := false
-		for _, j := range l {
-			hasA = hasA || j == twinA
-		}
-		if !hasA || twinA < 0 {
-			return l
-		}
-		var res []int
-		for _, j := range l {
-			if j != twinB {
-				res = append(res, j)
-			}
-		}
-		return res
-	}
+	twinA, twinB := m.twinA, m.twinB
 
-	pkgs := make([]gpkg, npk)
-	var files []File
+	// Layout of the import paths: all flat, all in version directories of
+	// the same major version, or drawn per package.
+	layout := rapid.SampledFrom([]string{"versioned", "flat", "mixed"}).Draw(t, "layout")
+	version := rapid.SampledFrom(pkgVersions).Draw(t, "version")
+
+	m.pkgs = make([]gpkg, npk)
+	pkgs := m.pkgs
 	for i := range pkgs {
 		p := &pkgs[i]
 		p.name = names[i]
-		p.path = p.name
+		org, ver := "", ""
+		switch layout {
+		case "versioned":
+			ver = version
+			if rapid.IntRange(0, 2).Draw(t, "org") == 0 {
+				org = rapid.SampledFrom(pkgOrgs).Draw(t, "orgname")
+			}
+		case "mixed":
+			if rapid.Bool().Draw(t, "org") {
+				org = rapid.SampledFrom(pkgOrgs).Draw(t, "orgname")
+			}
+			if rapid.Bool().Draw(t, "versioned") {
+				ver = rapid.SampledFrom(pkgVersions).Draw(t, "pkgversion")
+			}
+		}
 		if i == twinA {
-			p.path = "da/" + p.name
+			org = "da"
 		} else if i == twinB {
-			p.path = "db/" + p.name
+			org = "db"
+		}
+		p.path = p.name
+		if org != "" {
+			p.path = org + "/" + p.path
+			tags["nested-import-path"] = true
+		}
+		if ver != "" {
+			p.path += "/" + ver
+			p.alias = true
+			tags["version-dir-import-path"] = true
 		}
 		p.fn = "Fn"
 		prefix := ""
@@ -372,7 +510,6 @@ func drawMultiProgram(t *rapid.T) (string, []File, []string) {
 			n := rapid.IntRange(2, i).Draw(t, "nhubdeps")
 			p.imports = append(p.imports, rapid.Permutation(seq(i)).Draw(t, "hubdeps")[:n]...)
 			sortInts(p.imports)
-			tags["pkg-imports>=2-pkgs"] = true
 		} else {
 			for j := 0; j < i; j++ {
 				if rapid.IntRange(0, 3).Draw(t, "dep") == 0 {
@@ -380,7 +517,7 @@ func drawMultiProgram(t *rapid.T) (string, []File, []string) {
 				}
 			}
 		}
-		p.imports = dropTwin(p.imports)
+		p.imports = m.dropTwin(p.imports)
 		if i == twinB {
 			// A package does not import its own namesake.
 			var l []int
@@ -394,6 +531,12 @@ func drawMultiProgram(t *rapid.T) (string, []File, []string) {
 		if len(p.imports) > 0 {
 			tags["pkg-imports-pkg"] = true
 		}
+		if len(p.imports) >= 2 {
+			tags["pkg-imports>=2-pkgs"] = true
+			if sharedBase(pkgs, p.imports) {
+				tags["pkg-imports-share-last-path-component"] = true
+			}
+		}
 
 		var hdr, body strings.Builder
 		fmt.Fprintf(&hdr, "package %s\n\n", p.name)
@@ -401,7 +544,7 @@ func drawMultiProgram(t *rapid.T) (string, []File, []string) {
 			order := rapid.Permutation(p.imports).Draw(t, "deporder")
 			hdr.WriteString("import (\n")
 			for _, j := range order {
-				fmt.Fprintf(&hdr, "\t%q\n", pkgs[j].path)
+				hdr.WriteString(importLine(t, &pkgs[j]))
 			}
 			hdr.WriteString(")\n\n")
 		}
@@ -422,7 +565,8 @@ func drawMultiProgram(t *rapid.T) (string, []File, []string) {
 
 		// Package-level variables.
 		var vars strings.Builder
-		g := &pgen{t: t, ty: ty, consts: consts, mults: 2}
+		g := &pgen{t: t, ty: ty, consts: consts}
+		g.mults = g.maxMults() - 1 // at most one multiplication per package
 		nvars := rapid.IntRange(0, 3).Draw(t, "nvars")
 		if i < 2 && nvars == 0 {
 			nvars = 1
@@ -508,28 +652,38 @@ func drawMultiProgram(t *rapid.T) (string, []File, []string) {
 		// variable").
 		if rapid.IntRange(0, 2).Draw(t, "split") == 0 {
 			tags["multi-file-pkg"] = true
-			files = append(files,
+			m.files = append(m.files,
 				File{Path: p.path + "/defs.mpcl", Text: "package " + p.name + "\n\n" + body.String()},
 				File{Path: p.path + "/code.mpcl", Text: hdr.String() + vars.String() + "\n" + fn.String()})
 		} else {
-			files = append(files, File{Path: p.path + "/" + p.name + ".mpcl",
+			m.files = append(m.files, File{Path: p.path + "/" + p.name + ".mpcl",
 				Text: hdr.String() + body.String() + vars.String() + "\n" + fn.String()})
 		}
 	}
+	return m
+}
 
-	// Main: imports a subset (at least one, mostly at least two) in a drawn order.
+// drawMultiMain draws a main over the packages: it imports a subset (at least
+// one, mostly at least two) in a drawn order and calls every imported
+// package once.
+func drawMultiMain(t *rapid.T, m *multiPkgs) string {
+	ty, pkgs := m.ty, m.pkgs
+	npk := len(pkgs)
 	order := rapid.Permutation(seq(npk)).Draw(t, "importorder")
 	nimp := rapid.IntRange(1, npk).Draw(t, "nimports")
 	if nimp == 1 && rapid.IntRange(0, 3).Draw(t, "single-import") > 0 {
 		nimp = 2
 	}
-	order = dropTwin(order[:nimp])
+	order = m.dropTwin(order[:nimp])
+	if m.nmains == 0 && sharedBase(pkgs, order) {
+		m.tags["main-imports-share-last-path-component"] = true
+	}
+	m.nmains++
 	var sb strings.Builder
 	sb.WriteString("package main\n\nimport (\n")
 	g := &pgen{t: t, ty: ty, reads: []string{"a", "b"}}
 	for _, j := range order {
-		// (An import alias must equal the package name, so none is used.)
-		fmt.Fprintf(&sb, "\t%q\n", pkgs[j].path)
+		sb.WriteString(importLine(t, &pkgs[j]))
 		g.calls = append(g.calls, pkgs[j].name+"."+pkgs[j].fn+"(%s)")
 	}
 	sb.WriteString(")\n\n")
@@ -553,13 +707,19 @@ func drawMultiProgram(t *rapid.T) (string, []File, []string) {
 	g.line(1, "return %s", g.expr(1))
 	g.line(0, "}")
 	sb.WriteString(g.sb.String())
+	return sb.String()
+}
 
-	var res []string
-	for k := range tags {
-		res = append(res, k)
+// drawMultiProgram draws a set of library packages, the measured main and
+// 0-2 further mains over the same packages (used as earlier compilations).
+func drawMultiProgram(t *rapid.T) (string, []string, []File, []string) {
+	m := drawMultiPackages(t)
+	main := drawMultiMain(t, m)
+	var hist []string
+	for i := rapid.SampledFrom([]int{0, 1, 1, 2}).Draw(t, "nhistmains"); i > 0; i-- {
+		hist = append(hist, drawMultiMain(t, m))
 	}
-	sortStrings(res)
-	return sb.String(), files, res
+	return main, hist, m.files, m.tagList()
 }
 
 func seq(n int) []int {
